@@ -69,15 +69,22 @@ def state_of_vp(eos: EOS, branch: str, vw: float, vp: float, Tp0: float, Tm0: fl
                 mom=float(sh["mom_res_rel"]), xi_sh=float(sh["xi_sh"]))
 
 
-def sensitivity_to_vp(eos: EOS, branch: str, vw: float, vp: float, Tp: float, Tm: float, h=1e-5):
-    """Central differences along the junction manifold: d q/d v+ (7 numbers) and d Tn/d v+.
-    None if the manifold cannot be followed on either side (e.g. v+ at the end of its range)."""
-    a = state_of_vp(eos, branch, vw, vp * (1 + h), Tp, Tm)
-    b = state_of_vp(eos, branch, vw, vp * (1 - h), Tp, Tm)
-    if a is None or b is None or a["kind"] == "incomplete" or b["kind"] == "incomplete":
+def sensitivity_to_vp(eos: EOS, branch: str, vw: float, vp: float, Tp: float, Tm: float, base=None, h=1e-5):
+    """One-sided differences along the junction manifold: |d q/d v+| (7 numbers) and |d Tn/d v+|; these are
+    conditioning numbers, an O(h) error in them is irrelevant. `base` = state_of_vp at v+ if already known.
+    Steps towards smaller v+ first (v+ may sit at the upper end of its range); None if the manifold cannot
+    be followed on either side."""
+    if base is None:
+        base = state_of_vp(eos, branch, vw, vp, Tp, Tm)
+    if base is None or base["kind"] == "incomplete":
         return None
-    d = 2 * h * vp
-    return dict(dq=np.abs(a["q"] - b["q"]) / d, dTn=abs(a["Tn"] - b["Tn"]) / d)
+    for sgn in (-1.0, 1.0):
+        a = state_of_vp(eos, branch, vw, vp * (1 + sgn * h), Tp, Tm)
+        if a is None or a["kind"] == "incomplete":
+            continue
+        d = h * vp
+        return dict(dq=np.abs(a["q"] - base["q"]) / d, dTn=abs(a["Tn"] - base["Tn"]) / d)
+    return None
 
 
 # ------------------------------------------------------------------------------------------
